@@ -425,6 +425,21 @@ func c13exec(c *h.Ctx, cs *h.Case) {
 				if onet.NewTreeNode(3, c13si(k, i+9)).ID.String() != nid {
 					nondet("node", "node id of key "+hex.EncodeToString(k.raw)+" is not a function of the key")
 				}
+				// the id follows the key, not the deprecated ID field: an identity whose field was written by somebody else
+				// (it is part of the encoding: the sender chooses it), a copy whose key was replaced, a field that is stale
+				forged := network.ServerIdentityID(uuid.NewSHA1(uuid.NameSpaceURL, append([]byte("not the id of "), k.raw...)))
+				pFresh, _ := c13point(k.kind, k.raw)
+				lit := network.ServerIdentity{Public: pFresh, Address: si.Address, ID: forged}
+				if got := lit.GetID().String(); got != sid {
+					cs.Fail("server-id-from-id-field", "an identity with the key "+hex.EncodeToString(k.raw)+" whose ID field holds "+forged.String()+" answers GetID() = "+got+", the key's id is "+sid)
+				}
+				if o := keys[(i+1)%len(keys)]; o.kind == k.kind && !bytes.Equal(o.raw, k.raw) {
+					rot := c13si(k, i+11) // ID field = id of k
+					rot.Public, _ = c13point(o.kind, o.raw)
+					if want := c13si(o, i+12).ID.String(); rot.GetID().String() != want {
+						cs.Fail("server-id-from-id-field", "an identity whose key was replaced by "+hex.EncodeToString(o.raw)+" answers GetID() = "+rot.GetID().String()+", the new key's id is "+want)
+					}
+				}
 				kh := hex.EncodeToString(k.raw)
 				if o, dup := sids[sid]; dup && o != kh {
 					cs.Fail("server-id-collision", "keys "+o+" and "+kh+" have server id "+sid)
@@ -568,6 +583,30 @@ func c13exec(c *h.Ctx, cs *h.Case) {
 				c.Count("known-class toml (service keys not in the TOML form)")
 			}
 			cs.Impl = append(cs.Impl, fmt.Sprintf("id=%s getid=%s svc=%d", back.ID.String(), gs, kept))
+		case "nokey":
+			// identities without a public key (a struct literal, NewServerIdentity(nil, …)): GetID is the nil id, whatever
+			// the address — "no key" identifies nothing, and nothing else of the identity enters an id
+			if len(tk) != 4 {
+				bad()
+				continue
+			}
+			p1, e1 := strconv.ParseUint(tk[2], 10, 16)
+			p2, e2 := strconv.ParseUint(tk[3], 10, 16)
+			if e1 != nil || e2 != nil {
+				bad()
+				continue
+			}
+			a := network.ServerIdentity{Address: network.NewLocalAddress(fmt.Sprintf("127.0.0.1:%d", p1)), Description: "a"}
+			b := network.NewServerIdentity(nil, network.NewTCPAddress(fmt.Sprintf("10.0.0.1:%d", p2)))
+			ia, ib := a.GetID(), b.GetID()
+			isNil := ia.IsNil() && ib.IsNil() && b.ID.IsNil() && ia.String() == "00000000-0000-0000-0000-000000000000"
+			if !isNil {
+				cs.Fail("server-id-of-no-key", "an identity without a public key has the id "+ia.String()+" / "+ib.String()+" (ID field "+b.ID.String()+"), not the nil id")
+			}
+			if !ia.Equal(ib) {
+				cs.Fail("server-id-nondeterministic", "two identities without a key have the ids "+ia.String()+" and "+ib.String())
+			}
+			cs.Impl = append(cs.Impl, fmt.Sprintf("nil=%v same=%v", isNil, ia.Equal(ib)))
 		case "subset":
 			if len(tk) != 4 || roster == nil {
 				bad()
@@ -1214,9 +1253,9 @@ func c13gen(c *h.Ctx, yield func(*h.Case)) {
 			}
 		}
 		ops = append(ops, "c13 concat "+strings.Join(add, " "),
-			"c13 roster "+strings.Join(all, " "), // the same list through NewRoster: same id
-			idRoster(n),                           // the receiver again
-			fmt.Sprintf("c13 concat %d", n),       // one new identity: another id than the receiver's
+			"c13 roster "+strings.Join(all, " "),    // the same list through NewRoster: same id
+			idRoster(n),                             // the receiver again
+			fmt.Sprintf("c13 concat %d", n),         // one new identity: another id than the receiver's
 			fmt.Sprintf("c13 concat %d", r.Intn(n)), // nothing new
 			fmt.Sprintf("c13 withroot %d", r.Intn(n+1)),
 			fmt.Sprintf("c13 subset %d %d", r.Intn(n+1), r.Intn(n+3)),
@@ -1587,6 +1626,7 @@ func c13gen(c *h.Ctx, yield func(*h.Case)) {
 		ops = append(ops, "c13 ideq "+hex.EncodeToString(sid)+" "+hex.EncodeToString(s3), "c13 ideq "+hex.EncodeToString(s4)+" "+hex.EncodeToString(sid))
 		ops = append(ops, "c13 ideq "+hs+" "+hs, "c13 ideq "+hs+" "+ho, "c13 ideq "+hs+" "+hex.EncodeToString(s2), "c13 ideq "+nilid+" "+nilid,
 			"c13 ideq "+nilid+" "+hs, "c13 ideq "+hs+" "+nilid)
+		ops = append(ops, fmt.Sprintf("c13 nokey %d %d", 2000+r.Intn(3000), 2000+r.Intn(3000)))
 		class := "full-peersets"
 		if i%10 == 0 {
 			class += " xproc"
